@@ -90,6 +90,8 @@ def raw_path(ctx, tier):
     except RuntimeError as e:
         import re
         msg = str(e)
+        if "cargo build" not in msg:
+            raise
         names = sorted(set(re.findall(r"src/(w\d+)\.rs", msg)))
         by = {g.name: g.text for g in ok}
         for nm in names[:4] or ["?"]:
@@ -176,8 +178,12 @@ def check(ctx):
     gendump.build()
     rng = Rng(ctx.seed).fork("c20")
     quick = ctx.tier == "quick"
-    det_texts = RECURSIVE + grammar.HAND[:3] + grammar.repo_grammars()[:1]
-    determinism(ctx, det_texts if not quick else det_texts[:6], 3 if quick else 10)
+    # grammars that make every set / map of the generator hold several entries (unicode properties, wrappers, arities, rules)
+    UNI = ['ident = @{ (XID_START | "_") ~ XID_CONTINUE* }',
+           'tok = { LETTER | NUMBER | PUNCTUATION | SYMBOL | SEPARATOR | MARK | UPPERCASE_LETTER | LOWERCASE_LETTER | DECIMAL_NUMBER | '
+           'MATH_SYMBOL | CURRENCY_SYMBOL | SPACE_SEPARATOR | ALPHABETIC | EMOJI | HAN | LATIN | CYRILLIC | GREEK }\nws = { WHITE_SPACE+ ~ tok* }']
+    det_texts = UNI + RECURSIVE + grammar.HAND[:3] + grammar.repo_grammars()[:1]
+    determinism(ctx, det_texts if not quick else det_texts[:8], 4 if quick else 10)
     texts = list(grammar.HAND) + RECURSIVE + grammar.repo_grammars()[:2]
     texts += [grammar.rand_grammar(rng.fork("g%d" % i)) for i in range(150 if quick else 1500)]
     option_invariance(ctx, texts)
